@@ -258,3 +258,136 @@ Definition uniq_hi (maxdepth : Z) : Z := {uq_hi}.
 Definition uniq_code (d x : Z) : Z := {code}.
 Definition mocorder (maxdepth : Z) : Z := {mocorder}.
 """
+
+
+# ------------------------------------------------------------------------------------------
+# C02 / C11 / C13  source_finder.find_islands: thresholds, seed scope, region test, mask
+def _cmp_kind(node, left, right):
+    """node must be Compare(left op right) on plain names; returns 'ge','gt','le','lt'"""
+    if not (isinstance(node, ast.Compare) and len(node.ops) == 1 and src(node.left) == left
+            and src(node.comparators[0]) == right):
+        raise TranslateError(f"expected comparison of {left} with {right}, found {src(node)}")
+    k = {ast.GtE: 'ge', ast.Gt: 'gt', ast.LtE: 'le', ast.Lt: 'lt'}.get(type(node.ops[0]))
+    if k is None:
+        raise TranslateError(f"comparison operator in {src(node)}")
+    return k
+
+
+# a/b `op` c/d  with b, d > 0  as an integer comparison
+_FRAC = {'ge': '(cn * den <=? num * cd)', 'gt': '(cn * den <? num * cd)',
+         'le': '(num * cd <=? cn * den)', 'lt': '(num * cd <? cn * den)'}
+
+
+@point('Islands')
+def gen_islands(repo):
+    tree = parse_file(_p(repo, 'source_finder.py'))
+    fn = find_func(tree, 'find_islands')
+    # snr = abs(im - bkg) / rms
+    snr = one_assign(fn, 'snr').value
+    if not (isinstance(snr, ast.BinOp) and isinstance(snr.op, ast.Div) and src(snr.right) == 'rms'):
+        raise TranslateError(f"find_islands: snr is {src(snr)}")
+    tr = Tr('Z', {'im': 'im', 'bkg': 'bkg'})
+    num = tr.expr(snr.left)
+    # a = snr >= flood_clip
+    flood = _cmp_kind(one_assign(fn, 'a').value, 'snr', 'flood_clip')
+    # label(a, structure=np.ones((3, 3)))
+    lab = [n for n in ast.walk(fn) if isinstance(n, ast.Call) and src(n.func) == 'label']
+    if len(lab) != 1 or src(lab[0].args[0]) != 'a' or len(lab[0].keywords) != 1 or lab[0].keywords[0].arg != 'structure':
+        raise TranslateError("find_islands: label(a, structure=...)")
+    st = src(lab[0].keywords[0].value)
+    if st != 'np.ones((3, 3))':
+        raise TranslateError(f"find_islands: connectivity structure {st}")
+    fo = one_assign(fn, 'f').value
+    if src(fo) != 'find_objects(l)':
+        raise TranslateError("find_islands: f = find_objects(l)")
+    loops = [n for n in fn.body if isinstance(n, ast.For)]
+    if len(loops) != 1 or src(loops[0].iter) != 'range(n)':
+        raise TranslateError("find_islands: island loop")
+    loop = loops[0]
+    box = {}
+    for st_ in loop.body[:2]:
+        if not (isinstance(st_, ast.Assign) and isinstance(st_.targets[0], ast.Tuple)):
+            raise TranslateError("find_islands: bounding box unpacking")
+        for t, v in zip(st_.targets[0].elts, st_.value.elts):
+            box[t.id] = src(v)
+    if box != {'xmin': 'f[i][0].start', 'xmax': 'f[i][0].stop', 'ymin': 'f[i][1].start', 'ymax': 'f[i][1].stop'}:
+        raise TranslateError(f"find_islands: bounding box is {box}")
+    own = one_assign(fn, 'own').value
+    if src(own) != 'l[xmin:xmax, ymin:ymax] == i + 1':
+        raise TranslateError(f"find_islands: own = {src(own)}")
+    # seed test: if np.any(<snr box>[own]? > seed_clip)
+    seed_if = [s for s in loop.body if isinstance(s, ast.If)]
+    if len(seed_if) != 1:
+        raise TranslateError("find_islands: expected one `if` (seed test) in the island loop")
+    seed_if = seed_if[0]
+    if seed_if.orelse:
+        raise TranslateError("find_islands: seed test has an else branch")
+    t = seed_if.test
+    if not (isinstance(t, ast.Call) and src(t.func) == 'np.any' and len(t.args) == 1 and isinstance(t.args[0], ast.Compare)):
+        raise TranslateError(f"find_islands: seed test is {src(t)}")
+    cmp_ = t.args[0]
+    lhs = src(cmp_.left)
+    if lhs == 'snr[xmin:xmax, ymin:ymax][own]':
+        scope = 'true'
+    elif lhs == 'snr[xmin:xmax, ymin:ymax]':
+        scope = 'false'
+    else:
+        raise TranslateError(f"find_islands: seed test looks at {lhs}")
+    seed = _cmp_kind(cmp_, lhs, 'seed_clip')
+    # region test inside the seed branch
+    body = seed_if.body
+    reg_if = body[0]
+    if not (isinstance(reg_if, ast.If) and src(reg_if.test) == 'region is not None'):
+        raise TranslateError("find_islands: region test is not the first statement of the seed branch")
+    rb = {src(s.targets[0]): s.value for s in reg_if.body if isinstance(s, ast.Assign)}
+    if src(rb.get('(x, y)', ast.Constant(0))) != 'np.where(own)':
+        raise TranslateError("find_islands: region test pixels are not np.where(own)")
+    yx = rb.get('yx')
+    if yx is None or not src(yx).startswith('list(zip('):
+        raise TranslateError("find_islands: yx")
+    z = yx.args[0].args
+    trr = Tr('Z', {'x': 'r', 'y': 'c', 'xmin': 'rmin', 'ymin': 'cmin'})
+    first, second = trr.expr(z[0]), trr.expr(z[1])
+    w = rb.get('(ra, dec)')
+    if w is None or not src(w).startswith('wcs.wcs.wcs_pix2world(yx, '):
+        raise TranslateError("find_islands: pix2world call")
+    origin = tr.expr(w.func.value.args[1])
+    m = rb.get('mask')
+    if m is None or src(m) != 'region.sky_within(ra, dec, degin=True)':
+        raise TranslateError("find_islands: sky_within call")
+    last = reg_if.body[-1]
+    if not (isinstance(last, ast.If) and src(last.test) == 'not np.any(mask)' and isinstance(last.body[0], ast.Continue)):
+        raise TranslateError("find_islands: region rejection")
+    # island mask
+    im_ = one_assign(fn, 'island_mask').value
+    if not (isinstance(im_, ast.BinOp) and isinstance(im_.op, ast.BitOr)):
+        raise TranslateError("find_islands: island_mask")
+    mflood = _cmp_kind(im_.left, 'snr[xmin:xmax, ymin:ymax]', 'flood_clip')
+    if src(im_.right) != 'l[xmin:xmax, ymin:ymax] != i + 1':
+        raise TranslateError("find_islands: island_mask label test")
+    cb = [n for n in ast.walk(seed_if) if isinstance(n, ast.Call) and src(n.func) == 'island.calc_bounding_box']
+    if len(cb) != 1 or src(cb[0].args[0]) != 'np.logical_not(island_mask)' or src(cb[0].keywords[0].value) != '[xmin, ymin]':
+        raise TranslateError("find_islands: calc_bounding_box arguments")
+    sm = [n for n in ast.walk(seed_if) if isinstance(n, ast.Call) and src(n.func) == 'island.set_mask']
+    if len(sm) != 1 or src(sm[0].args[0]) != 'island_mask':
+        raise TranslateError("find_islands: set_mask")
+    neg = {'ge': 'lt', 'gt': 'le', 'le': 'gt', 'lt': 'ge'}
+    return HEADER_Z + f"""
+(* source_finder.find_islands.  Signal-to-noise is the fraction num/den (den = rms > 0);
+   a threshold is the fraction cn/cd (cd > 0); comparisons are cross-multiplied. *)
+Definition snr_num (im bkg : Z) : Z := {num}.
+Definition flood_test (num den cn cd : Z) : bool := {_FRAC[flood]}.
+Definition seed_test (num den cn cd : Z) : bool := {_FRAC[seed]}.
+(* the island mask blanks pixels for which this holds (or that carry another label) *)
+Definition mask_below_flood (num den cn cd : Z) : bool := {_FRAC[mflood]}.
+Definition mask_is_complement_of_flood : bool := {'true' if mflood == neg[flood] else 'false'}.
+(* true: the seed test looks at the island's own pixels; false: at its whole bounding box *)
+Definition seed_scope_own : bool := {scope}.
+(* half-width of the connectivity structure np.ones((3,3)) *)
+Definition conn_reach : Z := 1.
+(* region test: FITS coordinates handed to wcs_pix2world for the island pixel at array
+   position (r, c) of a box starting at (rmin, cmin), and the origin argument *)
+Definition region_first (r c rmin cmin : Z) : Z := {first}.
+Definition region_second (r c rmin cmin : Z) : Z := {second}.
+Definition region_origin : Z := {origin}.
+"""
